@@ -360,7 +360,7 @@ impl<'a> Ev<'a> {
                 if name.chars().next().map(|c| c.is_uppercase()).unwrap_or(false) && i.subpat.is_none() {
                     return; // constant / unit variant pattern
                 }
-                let val = if size(v) > 600 { json!({"k":"big","name":name,"ty":ty_of(v)}) } else { v.clone() };
+                let val = if size(v) > 6000 { json!({"k":"big","name":name,"ty":ty_of(v)}) } else { v.clone() };
                 let kind = val.get("k").and_then(|k| k.as_str()).unwrap_or("");
                 let val = if kind == "vecof" {
                     // locally built vectors keep their identity through the variable name
